@@ -28,7 +28,7 @@ RULE = ("Exhaustive product page_title x page_footnote x page_source (27) x foot
 ASSUMPTIONS = ["blocks are classified by sentinel tags", "multi-section documents are not in this property's quantifier"]
 
 CFG = gen.Cfg(max_cols=5, max_rows=30, nrow_range=(2, 16), allow_group_by=False, attrs=False, dividers=True,
-              page_borders=False, paper_range=(4.5, 60.0), as_colheader_false=True)
+              page_borders=False, paper_range=(4.5, 60.0), as_colheader_false=True, last_row_option=True)
 ORDER_RE = re.compile(r"^(T)?(U)?(B)?(H*)((?:G|D)*)(F)?(S)?$")
 CODE = {"title": "T", "subline": "U", "sublinehead": "B", "header": "H", "heading": "G", "data": "D",
         "fnrow": "F", "fnpara": "F", "srcrow": "S", "srcpara": "S", "pict": "D"}
